@@ -14,7 +14,7 @@ classes (2) observed for it; those are the open findings of known_findings.d/C04
 import os, sys, random, collections, json, hashlib
 import vlib, progen, langlib, lang_findings
 import tc_common as T
-import c02, c05, c04_matrix
+import c02, c05, c04_matrix, c04_ident
 
 
 def hand_witnesses():
@@ -135,6 +135,9 @@ def run(ck):
                 ck.fail(key, 'accepted well-typed program ends in an internal failure: ' + json.dumps(fails), rep)
         # ---- 1b. construct x context matrix (independent of progen): every accepted cell through both backends
         for key, what, rep in c04_matrix.run_matrix(ck, b, probe, wd, ck.thorough):
+            ck.fail(key, what, rep)
+        # ---- 1c. identifier spelling axis: every binding position x spellings hostile to the emitted C
+        for key, what, rep in c04_ident.run_ident(ck, b, probe, wd, ck.thorough):
             ck.fail(key, what, rep)
         # ---- 2. generated well-typed programs: acceptance on both sides, then both real backends
         cfg = c02.stream_cfg(ck)
@@ -262,7 +265,7 @@ def replay(ck, d):
     print('type_check:', v, T.diag_titles(err))
     with langlib.Work('replay') as wd:
         obs, fails = backends(b, wd, 'r', src)
-    if 'construct' in d:
+    if 'construct' in d or 'spelling' in d:
         fails = c04_matrix.classify(obs)[0]
     for t, o in brief(obs).items():
         print(t, o)
